@@ -107,8 +107,8 @@ def run(tier):
     # metamorphic oracle
     for mode in ("interp", "jit"):
         # (interpreter mode traces rays in pure Python: a quarter of the thorough-tier volume there)
-        probs = [problem(r, int(r.choice([2, 2, 3]))) for _ in range(14 if q else (120 if mode == "jit" else 30))]
-        for _ in range(6 if q else (40 if mode == "jit" else 10)):
+        probs = [problem(r, int(r.choice([2, 2, 3]))) for _ in range(14 if q else (120 if mode == "jit" else 12))]
+        for _ in range(6 if q else (40 if mode == "jit" else 4)):
             pp = problem(r, 3)
             if pp["meta"]["origin_kind"] == "dyadic":
                 oo = [float(x) for x in r.permutation([-8.0, 4.0, 16.0])]
